@@ -8,8 +8,8 @@
 package refamf
 
 import (
-	"math/big"
 	"bytes"
+	"math/big"
 	"encoding/hex"
 	"fmt"
 	"sort"
@@ -57,6 +57,7 @@ type ue struct {
 	encAlg   int
 	intAlg   int
 	secCap   []byte
+	suciRaw  []byte // the 5GS mobile identity of the cleartext registration request
 	kamfInst int
 	ulNext   uint32 // next expected uplink NAS COUNT
 	dlNext   uint32
@@ -648,7 +649,7 @@ func (a *AMF) onRegistrationRequest(ran uint64, plain []byte, what string) ([]dl
 	if m.UESecCap == nil || len(m.UESecCap) < 2 {
 		return nil, what, a.viol("no-ue-security-capability", "%s: no UE security capability: a conformant AMF rejects the registration (5GMM cause #23)", what)
 	}
-	u := &ue{idx: idx, ch: a.sc.UEs[idx], ranID: ran, amfID: a.sc.UEs[idx].AMFUEID, supi: supi, state: stAuth, secCap: m.UESecCap}
+	u := &ue{idx: idx, ch: a.sc.UEs[idx], ranID: ran, amfID: a.sc.UEs[idx].AMFUEID, supi: supi, state: stAuth, secCap: m.UESecCap, suciRaw: append([]byte{}, m.Identity.Raw...)}
 	// algorithm selection: the AMF's priority lists, restricted to what the UE advertises
 	u.intAlg = -1
 	intPrio, encPrio := []int{2, 1}, []int{0, 2, 1}
@@ -701,7 +702,7 @@ func (a *AMF) onRegistrationRequest(ran uint64, plain []byte, what string) ([]dl
 	u.kamfInst = a.kamfSeq
 	var tm [4]byte
 	tm[0], tm[1], tm[2], tm[3] = byte(ch.TMSI>>24), byte(ch.TMSI>>16), byte(ch.TMSI>>8), byte(ch.TMSI)
-	u.guti = Build5GGUTI(a.plmn, byte(a.sc.NGSetup.AMFRegion), uint16(a.sc.NGSetup.AMFSet), byte(a.sc.NGSetup.AMFPointer), tm)
+	u.guti = Build5GGUTI(a.guamiPLMN(), byte(a.sc.NGSetup.AMFRegion), uint16(a.sc.NGSetup.AMFSet), byte(a.sc.NGSetup.AMFPointer), tm)
 	a.ues = append(a.ues, u)
 	a.byRAN[ran] = u
 	a.byAMF[u.amfID] = u
@@ -854,6 +855,14 @@ func (a *AMF) onUplinkNAS(p *iewalk.PDU) ([]dlMsg, string, *Violation) {
 		if m.NASContainer != nil {
 			if in, err := ParsePlain5GMM(m.NASContainer); err == nil && in.Type == MTRegistrationRequest {
 				a.obs("NAS message container: RegistrationRequest, identity %x", in.Identity.Raw)
+				// the container holds the COMPLETE initial message (TS 24.501 4.4.6): the cleartext IEs again, with the
+				// values they had in the clear, plus the rest. This copy is the registration request the AMF acts on.
+				if !bytes.Equal(in.Identity.Raw, u.suciRaw) {
+					return nil, what, a.viol("container-identity", "%s: the registration request in the NAS message container names %x, the cleartext one named %x", what, in.Identity.Raw, u.suciRaw)
+				}
+				if in.UESecCap != nil && !bytes.Equal(in.UESecCap, u.secCap) {
+					return nil, what, a.viol("container-seccap", "%s: the registration request in the NAS message container advertises UE security capability %x, the cleartext one (replayed in the Security Mode Command) %x", what, in.UESecCap, u.secCap)
+				}
 			} else {
 				a.obs("NAS message container: %x", m.NASContainer)
 			}
